@@ -114,12 +114,24 @@ func c14List(dg []int) (msg, sig string) {
 		kFloat: func(log *[]interface{}) at.List { return l.ForEachFloat(func(x float64) { *log = append(*log, x) }) },
 	}
 	maps := map[int]func(log *[]interface{}) at.List{
-		kObj:   func(log *[]interface{}) at.List { return l.MapObjects(func(x at.Object) interface{} { *log = append(*log, x); return tagOf(x) }) },
-		kList:  func(log *[]interface{}) at.List { return l.MapLists(func(x at.List) interface{} { *log = append(*log, x); return tagOf(x) }) },
-		kStr:   func(log *[]interface{}) at.List { return l.MapStrings(func(x string) interface{} { *log = append(*log, x); return tagOf(x) }) },
-		kBool:  func(log *[]interface{}) at.List { return l.MapBools(func(x bool) interface{} { *log = append(*log, x); return tagOf(x) }) },
-		kInt:   func(log *[]interface{}) at.List { return l.MapInts(func(x int) interface{} { *log = append(*log, x); return tagOf(x) }) },
-		kFloat: func(log *[]interface{}) at.List { return l.MapFloats(func(x float64) interface{} { *log = append(*log, x); return tagOf(x) }) },
+		kObj: func(log *[]interface{}) at.List {
+			return l.MapObjects(func(x at.Object) interface{} { *log = append(*log, x); return tagOf(x) })
+		},
+		kList: func(log *[]interface{}) at.List {
+			return l.MapLists(func(x at.List) interface{} { *log = append(*log, x); return tagOf(x) })
+		},
+		kStr: func(log *[]interface{}) at.List {
+			return l.MapStrings(func(x string) interface{} { *log = append(*log, x); return tagOf(x) })
+		},
+		kBool: func(log *[]interface{}) at.List {
+			return l.MapBools(func(x bool) interface{} { *log = append(*log, x); return tagOf(x) })
+		},
+		kInt: func(log *[]interface{}) at.List {
+			return l.MapInts(func(x int) interface{} { *log = append(*log, x); return tagOf(x) })
+		},
+		kFloat: func(log *[]interface{}) at.List {
+			return l.MapFloats(func(x float64) interface{} { *log = append(*log, x); return tagOf(x) })
+		},
 	}
 	filters := map[int]func(p func(interface{}) bool) at.List{
 		kObj:   func(p func(interface{}) bool) at.List { return l.FilterObjects(func(x at.Object) bool { return p(x) }) },
